@@ -57,6 +57,14 @@ theorem open_yields_store_key (L : C.Laws) (st : Store C I) (sk0 : Option C.Key)
     h.storeKey = sk0 :=
   open_storeKey_eq L st sk0 hs m pass p h ho
 
+/-- … and under the collision-freeness idealisation of Argon2i / base58 (`Crypto.Inj`), two pass keys
+    that resolve to the same store key through the same key reference are the same text: "the right
+    key" is *the* pass key the store was keyed with (for `none` every pass key is right, by design). -/
+theorem right_key_is_the_pass_key (J : C.Inj) (ref : KeyRef) (hne : ref ≠ .unprotected) (pass pass' : PassKey)
+    (sk : Option C.Key) (h : ref.resolve C pass = .ok sk) (h' : ref.resolve C pass' = .ok sk) :
+    pass.str = pass'.str :=
+  resolve_same_key_same_pass J ref hne pass pass' sk h h'
+
 /-- `open` writes nothing: whatever key, method or profile is given, and whether it succeeds or
     is rejected, the persistent state afterwards is the state before. -/
 theorem wrong_open_no_change (fs : Fs C I) (m : Option Method) (pass : PassKey) (p : Option Str) :
@@ -154,7 +162,11 @@ theorem blank_raw_refused_everywhere_false : ¬ BlankRawRefusedEverywhere := by
   have := h Crypto.toy Unit
     { keyRef := sNone, defaultProfile := [0x70], profiles := [([0x70], (none, 1))], items := () }
     { storeKey := none, profile := [0x70], pk := 1 } none Crypto.toyRnd rfl
-  revert this; decide
+  have e : (rekey Crypto.toy (I := Unit)
+      { keyRef := sNone, defaultProfile := [0x70], profiles := [([0x70], (none, 1))], items := () }
+      { storeKey := none, profile := [0x70], pk := 1 } .raw none Crypto.toyRnd).2
+      = .ok { storeKey := some (99 : Nat), profile := [0x70], pk := (1 : Nat) } := rfl
+  rw [e] at this; cases this
 
 /-- What does hold: under a blank raw pass key `rekey` seals the store under the *random* key. -/
 theorem blank_raw_rekey_partial (st : Store C I) (h : Handle C) (pass : PassKey) (rnd : Rnd C) (hb : pass.str = [])
@@ -211,7 +223,7 @@ theorem uri_roundtrip_with_ampersand (o : Options) (hwf : o.WF = true) (qs : Lis
 
 /-- The `List Char` view: every string of Unicode scalar values is a `validUtf8` byte string, so the
     validity clauses of `WF` hold for every Rust `String`; what remains of `WF` is syntactic. -/
-theorem utf8_valid (cs : List Char) : validUtf8 (utf8 cs) = true := validUtf8_utf8 cs
+theorem utf8_valid (cs : List Char) : validUtf8 (Uri.utf8 cs) = true := validUtf8_utf8 cs
 
 /-- `from_utf8_lossy` is the identity on valid UTF-8 (and only there does `percent_decode` keep text). -/
 theorem lossy_valid (s : Str) (h : validUtf8 s = true) : lossy s = s := lossy_of_valid s h
@@ -219,9 +231,9 @@ theorem lossy_valid (s : Str) (h : validUtf8 s = true) : lossy s = s := lossy_of
 /-! Non-vacuity: a non-trivial `Options` satisfying `WF` — scheme `sqlite`, user `u/é`, password `p w`,
     host `h`, path `/a b`, query {`b c` ↦ `2 é`}, fragment `f#` — and its round trip computed. -/
 def exOpts : Options :=
-  { scheme := utf8 ['s', 'q', 'l', 'i', 't', 'e'], user := utf8 ['u', '/', 'é'], password := utf8 ['p', ' ', 'w'],
-    host := utf8 ['h'], path := utf8 ['/', 'a', ' ', 'b'], query := [(utf8 ['b', ' ', 'c'], utf8 ['2', ' ', 'é'])],
-    fragment := utf8 ['f', '#'] }
+  { scheme := Uri.utf8 ['s', 'q', 'l', 'i', 't', 'e'], user := Uri.utf8 ['u', '/', 'é'], password := Uri.utf8 ['p', ' ', 'w'],
+    host := Uri.utf8 ['h'], path := Uri.utf8 ['/', 'a', ' ', 'b'], query := [(Uri.utf8 ['b', ' ', 'c'], Uri.utf8 ['2', ' ', 'é'])],
+    fragment := Uri.utf8 ['f', '#'] }
 example : exOpts.WF = true := by decide
 example : parseUri (intoUri exOpts) = exOpts := by decide
 example : d1Witness.WF = true := d1Witness_wf
